@@ -206,6 +206,30 @@ Theorem C02_info_int_col_correct :
       | Some l => Col (map CInt l) | None => ColErr end.
 Proof. exact info_int_col_correct. Qed.
 Print Assumptions C02_info_int_col_correct.
+(* Flag keys: reported for a record iff one of its ';'-separated items IS the key — not when the key is only a prefix,
+   suffix or infix of an item (G5 / G5A, PM / PMC), nor when it occurs as "key=value" (DB next to DBID=...) *)
+Theorem C02_info_flag_correct :
+  forall (key : list Z) (crows : list (list fcell)),
+    (forall c, In c crows -> crow_ok c) ->
+    let rows := map flatten crows in
+    has_flag (List.concat rows) key (item_table 0 rows) = map (fun c => existsb (zlist_eqb key) (map fst c)) crows.
+Proof. exact info_flag_correct. Qed.
+Print Assumptions C02_info_flag_correct.
+Theorem C02_info_flag_col_correct :
+  forall (key : list Z) (lst : bool) (crows : list (list fcell)),
+    (forall c, In c crows -> crow_ok c) ->
+    let rows := map flatten crows in
+    info_col (List.concat rows) (item_table 0 rows) (key, IFlag, lst)
+    = Col (map (fun c => CBool (existsb (zlist_eqb key) (map fst c))) crows).
+Proof. exact info_flag_col_correct. Qed.
+Print Assumptions C02_info_flag_col_correct.
+Theorem C02_info_flag_spec :
+  forall (key : list Z) (lst : bool) (items : list (list Z)) (d : Z),
+    items <> [] -> (forall it, In it items -> ~ In 59 it) -> key <> [46] ->
+    spec_info_cell (key, IFlag, lst) (intercalate [59] items)
+    = Some (CBool (existsb (zlist_eqb key) (map fst (info_cells items d)))).
+Proof. exact info_flag_spec. Qed.
+Print Assumptions C02_info_flag_spec.
 (* ... and that text is what the specification reads off the INFO text (items split on ';', "." = no item) *)
 Theorem C02_info_string_spec :
   forall (key : list Z) (lst : bool) (items : list (list Z)) (d : Z),
@@ -213,6 +237,27 @@ Theorem C02_info_string_spec :
     spec_info_cell (key, IString, lst) (intercalate [59] items) = Some (CBytes (found key (info_cells items d))).
 Proof. exact info_string_spec. Qed.
 Print Assumptions C02_info_string_spec.
+
+(* Genotype string matrix (VCFBuffer2 and every buffer built on _extract_genotypes): a sample cell's value is the text
+   before ITS OWN first ':' (the GT sub-field) — whatever the width of the widest cell of the file (the window through
+   which every cell is read) and whatever follows the cell in the buffer; hence a cell's value depends on its own bytes only. *)
+Theorem C02_padded_cell_correct :
+  forall (data : list Z) (mx s e : Z),
+    0 <= s -> s < e -> e <= len data -> e - s <= mx ->
+    let cell := slice s e data in
+    hd0 cell <> 58 -> (forall c, In c cell -> c <> 0) ->
+    padded_cell data mx (s, e) = gt_subfield cell.
+Proof. exact padded_cell_correct. Qed.
+Print Assumptions C02_padded_cell_correct.
+Theorem C02_padded_cell_local :
+  forall data mx s e data' mx' s' e',
+    0 <= s -> s < e -> e <= len data -> e - s <= mx ->
+    0 <= s' -> s' < e' -> e' <= len data' -> e' - s' <= mx' ->
+    slice s e data = slice s' e' data' ->
+    hd0 (slice s e data) <> 58 -> (forall c, In c (slice s e data) -> c <> 0) ->
+    padded_cell data mx (s, e) = padded_cell data' mx' (s', e').
+Proof. exact padded_cell_local. Qed.
+Print Assumptions C02_padded_cell_local.
 
 (* T3: header and comment lines at the top of the file never reach the parser: whatever the lines are (as long
    as each starts with the format's comment byte), reading resumes exactly at the first record. *)
@@ -231,7 +276,7 @@ Theorem C02_vcf_position_shift :
 Proof. exact vcf_position_shift. Qed.
 Print Assumptions C02_vcf_position_shift.
 Theorem C02_position_shift_only_vcf :
-  forall f j, In (j, TIntM1) (schema f) -> j = 1 /\ (f = Fvcf \/ f = Fvcfgt \/ f = Fvcfph \/ f = Fvcfhap).
+  forall f j, In (j, TIntM1) (schema f) -> j = 1 /\ (f = Fvcf \/ f = Fvcfgt \/ f = Fvcfph \/ f = Fvcfhap \/ f = Fvcf2).
 Proof. exact position_shift_only_vcf. Qed.
 Print Assumptions C02_position_shift_only_vcf.
 
@@ -308,6 +353,8 @@ Theorem C02_source_tie :
                    /\ gen_cr_adjust e c = m_cr_adjust e c)
   /\ (forall s e mx j row n, gen_mida_width s e = e - s /\ gen_mida_index s e mx j = m_mida_index e mx j
                               /\ gen_mida_n_fill s e mx = m_mida_n_fill s e mx /\ gen_mida_fill_start row n mx = row * mx)
+  /\ (forall l p, gen_stop_len l p = m_stop_len l p)
+  /\ (forall l k, gen_flag_len_match l k = m_flag_len_match l k)
   /\ (forall s e j n, gen_field_len s e = e - s /\ gen_gfbn_first j n = j /\ gen_gfbn_step j n = n
                        /\ s + gen_gfbn_keep_len (gen_field_len s e) = m_keep_end e)
   /\ (forall v, gen_vcf_shift_col = m_pos_shift_col /\ gen_vcf_shift v = m_pos_shift v)
@@ -322,10 +369,12 @@ Proof.
         (conj (fun dp dn n e => conj (b_gbe_start dp dn n) (conj (b_gbe_end dp dn n) (b_gbe_entry e)))
         (conj (fun e c => conj (proj1 (b_cr_probe e)) (conj (proj2 (b_cr_probe e)) (conj b_cr_byte (b_cr_adjust e c))))
         (conj (fun s e mx j row n => conj (b_mida_width s e) (conj (b_mida_index s e mx j) (conj (b_mida_n_fill s e mx) (b_mida_fill_start row n mx))))
+        (conj b_stop_len
+        (conj b_flag_len_match
         (conj (fun s e j n => conj (b_field_len s e) (conj (proj1 (b_gfbn_select j n)) (conj (proj2 (b_gfbn_select j n)) (b_gfbn_keep s e))))
         (conj b_vcf_shift
         (conj (fun s e ee st => conj (b_sam_extra_start s e) (b_sam_extra_len ee st))
-              (fun s k size l => conj (b_hfm_line_len k) (conj (b_hfm_ignored s k size) (conj (b_value_start s k) (b_value_len l k)))))))))))).
+              (fun s k size l => conj (b_hfm_line_len k) (conj (b_hfm_ignored s k size) (conj (b_value_start s k) (b_value_len l k)))))))))))))).
 Qed.
 Print Assumptions C02_source_tie.
 
@@ -388,6 +437,20 @@ Example C02_nonvacuous_info :
       = Some [unhex "35"; []; unhex "3132"]%string
   /\ map (found key) crows = [unhex "35"; []; unhex "3132"]%string.
 Proof. vm_compute. repeat split; reflexivity. Qed.
+(* "./." next to "0/1:35:99": the short cell's 9-byte window reaches the ':' of its neighbour, yet its value is "./.";
+   cutting at the window's first ':' without the np.minimum would give "./.<TAB>0/1" *)
+Example C02_nonvacuous_geno :
+  let data := unhex "2e2f2e09302f313a33353a39390a"%string in       (* ./.<TAB>0/1:35:99<LF> *)
+  padded_cell data 9 (0, 3) = unhex "2e2f2e"%string /\ padded_cell data 9 (4, 13) = unhex "302f31"%string
+  /\ firstn (Z.to_nat (argmax_eq 58 0 (map (fun j => nthZ data (Z.min (0 + j) (len data - 1))) (arange 9)))) data
+      = unhex "2e2f2e09302f31"%string.
+Proof. vm_compute. repeat split; reflexivity. Qed.
+(* Flag G5 with rows "G5A;XG5" / "G5;G5A" / "G5=1" / "." : only the second row carries the flag *)
+Example C02_nonvacuous_flag :
+  let crows := [info_cells [unhex "473541"; unhex "584735"] 9; info_cells [unhex "4735"; unhex "473541"] 9;
+                info_cells [unhex "47353d31"] 9; info_cells [unhex "2e"] 10]%string in
+  has_flag (List.concat (map flatten crows)) (unhex "4735"%string) (item_table 0 (map flatten crows)) = [false; true; false; false].
+Proof. vm_compute. reflexivity. Qed.
 (* a whole BED6 file through the whole model *)
 Example C02_nonvacuous_run :
   run Fbed6 None (unhex "2368647209780a63317431093509313209610931302b0a"%string) <> ObsErr.
